@@ -1170,15 +1170,18 @@ func (in *interp) subst(n *awk.Node) Value {
 		target = awk.StripGroups(a[2])
 	}
 	preRead := target.K != awk.Var
+	var orig Value
 	if preRead {
 		l = in.resolveL(target)
-		old = in.load(l).ToStr(in.convfmt)
+		orig = in.load(l)
+		old = orig.ToStr(in.convfmt)
 	}
 	re := in.regexOf(a[0])
 	repl := in.strArg(a[1])
 	if !preRead {
 		l = in.resolveL(target)
-		old = in.load(l).ToStr(in.convfmt)
+		orig = in.load(l)
+		old = orig.ToStr(in.convfmt)
 	}
 	count := 0
 	out := re.ReplaceAllStringFunc(old, func(m string) string {
@@ -1188,12 +1191,12 @@ func (in *interp) subst(n *awk.Node) Value {
 		count++
 		return expandRepl(repl, m)
 	})
-	if l.kind == "field" {
-		if count > 0 {
-			in.store(l, Str(out))
-		}
-	} else {
+	switch {
+	case count > 0:
 		in.store(l, Str(out))
+	case l.kind != "field":
+		// nothing replaced: the target keeps the value it has (the element or variable exists afterwards)
+		in.store(l, orig)
 	}
 	return Num(float64(count))
 }
